@@ -1,0 +1,252 @@
+//go:build verif
+
+// Verification hooks: this file only re-exports existing internals under Verif* names for the
+// correspondence harness in /verif. It is compiled only with -tags verif and changes no behaviour.
+
+package rapid
+
+import (
+	"time"
+)
+
+type VerifGroup struct {
+	Begin      int
+	End        int
+	Label      string
+	Standalone bool
+	Discard    bool
+}
+
+type VerifError struct {
+	Kind      string // "" (no error), "invalid", "stop", "panic"
+	Msg       string
+	Traceback string
+}
+
+type VerifRecording struct {
+	Data   []uint64
+	Groups []VerifGroup
+}
+
+func verifErr(err *testError) VerifError {
+	switch {
+	case err == nil:
+		return VerifError{}
+	case err.isInvalidData():
+		return VerifError{Kind: "invalid", Msg: err.Error(), Traceback: err.traceback}
+	case err.isStopTest():
+		return VerifError{Kind: "stop", Msg: err.Error(), Traceback: err.traceback}
+	default:
+		return VerifError{Kind: "panic", Msg: err.Error(), Traceback: err.traceback}
+	}
+}
+
+func verifRec(rec recordedBits) VerifRecording {
+	r := VerifRecording{Data: append([]uint64(nil), rec.data...)}
+	for _, g := range rec.groups {
+		r.Groups = append(r.Groups, VerifGroup{g.begin, g.end, g.label, g.standalone, g.discard})
+	}
+	return r
+}
+
+func verifUnrec(r VerifRecording) recordedBits {
+	rec := recordedBits{data: append([]uint64(nil), r.Data...), persist: true}
+	for _, g := range r.Groups {
+		rec.groups = append(rec.groups, groupInfo{g.Begin, g.End, g.Label, g.Standalone, g.Discard})
+	}
+	return rec
+}
+
+// VerifGeom is genGeom(s, 1/(m+1)) + 1 for the 53-bit word k, with m as genUintNBiased computes it
+// from bitlen.
+func VerifGeom(bitlen int, k uint64) uint64 {
+	m := maxFloat(8, (float64(bitlen)+48)/7)
+	s := newBufBitStream([]uint64{k}, false)
+	return genGeom(s, 1/(m+1)) + 1
+}
+
+func maxFloat(a, b float64) float64 {
+	if a > b {
+		return a
+	}
+	return b
+}
+
+// VerifCoinThreshold returns the least k in [0, 2^53] for which a repeat built by
+// newRepeat(minCount, maxCount, avgCount) continues on the coin word k (2^53: never).
+func VerifCoinThreshold(minCount int, maxCount int, avgCount float64) uint64 {
+	r := newRepeat(minCount, maxCount, avgCount, "")
+	lo, hi := uint64(0), uint64(1)<<53
+	for lo < hi {
+		mid := lo + (hi-lo)/2
+		if float64(mid)*0x1.0p-53 >= 1-r.pContinue {
+			hi = mid
+		} else {
+			lo = mid + 1
+		}
+	}
+	return lo
+}
+
+// VerifFlipCoin is flipBiasedCoin on a one-word buffer.
+func VerifFlipCoin(k uint64, p float64) bool {
+	return flipBiasedCoin(newBufBitStream([]uint64{k}, false), p)
+}
+
+// VerifRunBuf is checkOnce on a recording buffer stream.
+func VerifRunBuf(tb TB, buf []uint64, tbLog bool, prop func(*T)) (VerifError, VerifRecording) {
+	s := newBufBitStream(append([]uint64(nil), buf...), true)
+	err := checkOnce(newT(tb, s, tbLog, nil), prop)
+	return verifErr(err), verifRec(s.recordedBits)
+}
+
+// VerifRunSeed is checkOnce on a recording PRNG stream.
+func VerifRunSeed(tb TB, seed uint64, tbLog bool, prop func(*T)) (VerifError, VerifRecording) {
+	s := newRandomBitStream(seed, true)
+	err := checkOnce(newT(tb, s, tbLog, nil), prop)
+	return verifErr(err), verifRec(s.recordedBits)
+}
+
+// VerifRunSeedNoPersist is checkOnce on a non-recording PRNG stream (as findBug uses it).
+func VerifRunSeedNoPersist(tb TB, seed uint64, prop func(*T)) VerifError {
+	s := newRandomBitStream(seed, false)
+	return verifErr(checkOnce(newT(tb, s, false, nil), prop))
+}
+
+func VerifPrune(r VerifRecording) VerifRecording {
+	rec := verifUnrec(r)
+	rec.prune()
+	return verifRec(rec)
+}
+
+func VerifCheckFuzz(tb TB, prop func(*T), input []byte) {
+	checkFuzz(tb, prop, input)
+}
+
+func VerifCompareData(a, b []uint64) int { return compareData(a, b) }
+
+// VerifShrinker wraps a shrinker built the way shrink() builds it.
+type VerifShrinker struct{ s *shrinker }
+
+func VerifNewShrinker(tb TB, r VerifRecording, e VerifError, prop func(*T)) *VerifShrinker {
+	rec := verifUnrec(r)
+	rec.prune()
+	return &VerifShrinker{&shrinker{
+		tb:      tb,
+		rec:     rec,
+		err:     &testError{data: verifData(e), traceback: e.Traceback},
+		prop:    prop,
+		visBits: []recordedBits{rec},
+		tries:   map[string]int{},
+		cache:   map[string]struct{}{},
+	}}
+}
+
+func verifData(e VerifError) any {
+	switch e.Kind {
+	case "invalid":
+		return invalidData(e.Msg)
+	case "stop":
+		return stopTest(e.Msg)
+	default:
+		return e.Msg
+	}
+}
+
+// Accept calls (*shrinker).accept; a panic(err2) from the flaky branch is reported as aborted.
+func (v *VerifShrinker) Accept(buf []uint64) (accepted bool, aborted bool) {
+	defer func() {
+		if r := recover(); r != nil {
+			if _, ok := r.(*testError); ok {
+				aborted = true
+				return
+			}
+			panic(r)
+		}
+	}()
+	return v.s.accept(append([]uint64(nil), buf...), "verif", "verif"), false
+}
+
+func (v *VerifShrinker) State() (VerifRecording, VerifError, int) {
+	return verifRec(v.s.rec), verifErr(v.s.err), v.s.shrinks
+}
+
+func VerifShrink(tb TB, shrinkTime time.Duration, r VerifRecording, e VerifError, prop func(*T)) ([]uint64, VerifError) {
+	buf, err := shrink(tb, time.Now().Add(shrinkTime), verifUnrec(r), &testError{data: verifData(e), traceback: e.Traceback}, prop)
+	return buf, verifErr(err)
+}
+
+func VerifMinimize(u uint64, cond func(uint64) bool) uint64 {
+	return minimize(u, func(x uint64, _ string) bool { return cond(x) })
+}
+
+func VerifFindBug(tb TB, checks int, seed uint64, prop func(*T)) (int, int, bool, uint64, VerifError) {
+	valid, invalid, early, s, err := findBug(tb, time.Now().Add(maxTestTimeout), checks, seed, prop)
+	return valid, invalid, early, s, verifErr(err)
+}
+
+type VerifCheckResult struct {
+	Valid, Invalid int
+	EarlyExit      bool
+	Seed           uint64
+	FailFile       string
+	Buf            []uint64
+	Err1, Err2     VerifError
+}
+
+func VerifDoCheck(tb TB, checks int, seed uint64, failfile string, globFailFiles bool, prop func(*T)) VerifCheckResult {
+	valid, invalid, early, s, ff, buf, err1, err2 := doCheck(tb, time.Now().Add(maxTestTimeout), checks, seed, failfile, globFailFiles, prop)
+	return VerifCheckResult{valid, invalid, early, s, ff, buf, verifErr(err1), verifErr(err2)}
+}
+
+// VerifCheckTB is checkTB with the deadline Check would use for a non-*testing.T TB.
+func VerifCheckTB(tb TB, prop func(*T)) {
+	checkTB(tb, time.Now().Add(maxTestTimeout), prop)
+}
+
+type VerifFlags struct {
+	Checks     int
+	Steps      int
+	FailFile   string
+	NoFailFile bool
+	Seed       uint64
+	Log        bool
+	Verbose    bool
+	Debug      bool
+	ShrinkTime time.Duration
+}
+
+func VerifGetFlags() VerifFlags {
+	return VerifFlags{flags.checks, flags.steps, flags.failfile, flags.nofailfile, flags.seed, flags.log, flags.verbose, flags.debug, flags.shrinkTime}
+}
+
+func VerifSetFlags(f VerifFlags) {
+	flags.checks, flags.steps, flags.failfile, flags.nofailfile = f.Checks, f.Steps, f.FailFile, f.NoFailFile
+	flags.seed, flags.log, flags.verbose, flags.debug, flags.shrinkTime = f.Seed, f.Log, f.Verbose, f.Debug, f.ShrinkTime
+}
+
+func VerifBaseSeed() uint64 { return baseSeed() }
+
+func VerifSaveFailFile(filename string, version string, output []byte, seed uint64, buf []uint64) error {
+	return saveFailFile(filename, version, output, seed, buf)
+}
+
+func VerifLoadFailFile(filename string) (string, uint64, []uint64, error) {
+	return loadFailFile(filename)
+}
+
+func VerifFailFileName(testName string) (string, string) { return failFileName(testName) }
+func VerifFailFilePattern(testName string) string        { return failFilePattern(testName) }
+func VerifKindaSafeFilename(f string) string             { return kindaSafeFilename(f) }
+func VerifRapidVersion() string                          { return rapidVersion }
+func VerifFailfileTmpPattern() string                    { return failfileTmpPattern }
+
+func VerifJsf(seed uint64, n int) []uint64 {
+	var x jsf64ctx
+	x.init(seed)
+	out := make([]uint64, n)
+	for i := range out {
+		out[i] = x.rand()
+	}
+	return out
+}
